@@ -793,7 +793,7 @@ def resume_check(prop, tier, seed, work, replay):
         return [ec.model_check(work, "small" if q else "medium", ["C06"], False), table_mc(work, q)]
     return line_check(prop, tier, seed, work, replay, "ResumeTrace.tla", "holdem-resume", ["-mode", "both", "-seed", str(seed)], mc,
                       ["runs.always", "runs.cuts", "backendCalls", "refusedCalls", "handsClosed", "tg.handsClosed", "tg.TG.Ready", "tg.TG.Pay",
-                       "table.handsStarted", "table.handsClosed", "table.closed"], False,
+                       "table.handsStarted", "table.handsClosed", "table.closed", "table.restartedFromIdle", "table.newBlindLevel"], False,
                       ["complete-state equality is computed by the driver on the JSON encodings (timestamps and game id removed)",
                        "the backend instance is created with CreateGame and then given the same deck (nothing is dealt before the first ready)"],
                       "three instances in lock-step (in-memory, re-hydrated from JSON before every call and at scripted cut points, NativeBackend) + a second "
